@@ -494,7 +494,8 @@ impl Env {
                 self.conns.insert(c, Conn { auto_ident, to_lib: to_lib.clone(), from_lib: from_lib.clone(), scanned: 0, attached: false, ident: None, rel_logged: (false, false), seen_logged: (false, false, false), closed: false });
                 let fut: BoxFut<'static, ZmqResult<PeerIdentity>> = Box::pin(zeromq::__verif::attach(self.backend.clone(), R(to_lib), W(from_lib)));
                 self.attaching.insert(c, Pending { fut, waker: CountWaker::new(), polls: 0, seen_wakes: 0 });
-                self.ev(json!({"ev":"attach_call","c":c,"ptype":op.get("ptype").cloned().unwrap_or(Value::Null),"ident":op.get("ident").cloned().unwrap_or(Value::Null)}));
+                let announced = self.announced.get(&c).map(|a| rc::fdesc(a));
+                self.ev(json!({"ev":"attach_call","c":c,"ptype":op.get("ptype").cloned().unwrap_or(Value::Null),"ident":op.get("ident").cloned().unwrap_or(Value::Null),"announced":announced}));
                 if op.get("first").is_some() {
                     self.ev(json!({"ev":"peer_wrote","c":c,"m":rc::mdesc(&frames_of(&op["first"])),"with_handshake":true}));
                 }
